@@ -188,3 +188,25 @@ Theorem C05_src_pin_operations_copy_file : pin_unchanged name_operations_copy_fi
 Proof. exact pin_operations_copy_file. Qed.
 Print Assumptions C05_src_pin_parblock_queue_file_blocks.
 Print Assumptions C05_src_pin_operations_copy_file.
+
+(* ---- further functions on this property's path, pinned token for token as validated (dependency review after rounds 5 and 6:
+   each missed change had edited a pinned function that this property did not cite) ---- *)
+From XcpPins Require Import Pin_parblock_queue_file_range Pin_linux_lseek Pin_operations_new Pin_common_allocate_file Pin_parblock_dispatch_worker Pin_parfile_copy_worker.
+Theorem C05_src_pin_parblock_queue_file_range : pin_unchanged name_parblock_queue_file_range.
+Proof. exact pin_parblock_queue_file_range. Qed.
+Theorem C05_src_pin_linux_lseek : pin_unchanged name_linux_lseek.
+Proof. exact pin_linux_lseek. Qed.
+Theorem C05_src_pin_operations_new : pin_unchanged name_operations_new.
+Proof. exact pin_operations_new. Qed.
+Theorem C05_src_pin_common_allocate_file : pin_unchanged name_common_allocate_file.
+Proof. exact pin_common_allocate_file. Qed.
+Theorem C05_src_pin_parblock_dispatch_worker : pin_unchanged name_parblock_dispatch_worker.
+Proof. exact pin_parblock_dispatch_worker. Qed.
+Theorem C05_src_pin_parfile_copy_worker : pin_unchanged name_parfile_copy_worker.
+Proof. exact pin_parfile_copy_worker. Qed.
+Print Assumptions C05_src_pin_parblock_queue_file_range.
+Print Assumptions C05_src_pin_linux_lseek.
+Print Assumptions C05_src_pin_operations_new.
+Print Assumptions C05_src_pin_common_allocate_file.
+Print Assumptions C05_src_pin_parblock_dispatch_worker.
+Print Assumptions C05_src_pin_parfile_copy_worker.
